@@ -38,6 +38,9 @@ func (s *State) evalAssignment(right object.Object, node *ast.InfixExpression) o
 			return s.Errorf("assignment to non index [] expression %T %v", node.Left, ast.DebugString(node.Left))
 		}
 		index := s.Eval(idxE.Index)
+		if index.Type() == object.ERROR {
+			return index // (it was stored as the key: m[1/0] = 5 gave {<err: division by zero>:5})
+		}
 		return s.evalIndexAssigment(idxE.Left, index, right)
 	case token.IDENT:
 		id := node.Left.(*ast.Identifier)
